@@ -702,10 +702,14 @@ func c08dRun(t *testing.T, r *vreport.Report, c c08dCase) {
 	}
 	orig := impl.queryHandlerFactory
 	fired := false
+	calls := 0
 	total := c.N
 	impl.queryHandlerFactory = func(collectionID uint32) (ChannelQueryHandler, error) {
 		h, herr := orig(collectionID)
-		if !fired {
+		// the look-up does not say which channel's cache is being created (the request creates one per channel it
+		// reads, e.g. the public channel first): documents arrive during each of the first three creations
+		calls++
+		if calls <= 3 {
 			fired = true
 			for k := 0; k < c.Extra; k++ {
 				total++
@@ -723,6 +727,7 @@ func c08dRun(t *testing.T, r *vreport.Report, c c08dCase) {
 		return h, herr
 	}
 	defer func() { impl.queryHandlerFactory = orig }()
+	_ = fired
 	poll := func(label string) (int, error) {
 		opts := ChangesOptions{Since: w.since, ChangesCtx: tctx, Limit: c.Limit}
 		feed, err := w.ucoll.MultiChangesFeed(w.ctx, base.SetOf("*"), opts)
